@@ -169,6 +169,15 @@ Share(m, booked, cap) == QEq(<<m, 1>>, QDiv(QMul(<<Day, 1>>, booked), cap))
 BookedBefore(R, r, d, j) == SumRows(R, {i \in RowsOn(R, r, d) : i < j})
 BookedUpTo(R, r, d, j)   == SumRows(R, {i \in RowsOn(R, r, d) : i <= j})
 RowOfOn(R, t, d) == CHOOSE j \in RowsOfTask(R, t) : R.rows[j].d = d
+(* a leaf with nothing to do is placed like any other: on the first day from its release that still has free  *)
+(* capacity, at the share of that day booked before it.  Without any dependency link tasks are placed in WBS   *)
+(* order, so "before it" is: by the tasks listed earlier (task numbers are WBS order)                           *)
+NoLinks(I) == I.ext = <<>> /\ \A u \in Tasks(I) : I.tasks[u].pre = <<>>
+C08_ZeroWork(I, R, t) ==                      \* forward, balance on, no links, now <= pstart; t: free leaf, no work
+    LET r == ResOf(I, t)  d == DayOf(R.start[t])
+        before == SumRows(R, {j \in RowIdx(R) : R.rows[j].r = r /\ R.rows[j].d = d /\ R.rows[j].t < t})
+    IN  /\ QPos(Cap(I, r, d))
+        /\ Share(R.start[t] - Midnight(d), before, Cap(I, r, d))
 C08_Encoding(I, R, t) ==                      \* balance on, now <= pstart, t has rows, start not fixed
     LET r == ResOf(I, t)  f == FirstDay(R, t)  l == LastDay(R, t) IN
     /\ Share(R.start[t] - Midnight(f), BookedBefore(R, r, f, RowOfOn(R, t, f)), Cap(I, r, f))
